@@ -963,8 +963,8 @@ func rulePairMembership(c *Ctx) {
 		name := fnName(f)
 		if _, own := p.ownedBy(f, func(nm string) bool {
 			return covered[nm] || nm == p.FnNameOf("(*rescache.Cache).getSubscription") || nm == p.FnNameOf("(*rescache.Cache).sendRequest")
-		}); own {
-			continue // covered by PAIR/cache-count
+		}); own && (!p.onReferenceTree(TopLevel(f)) || covered[fnName(TopLevel(f))]) {
+			continue // covered by PAIR/cache-count: an acquirer, a caller of one, or a helper extracted from them
 		}
 		for _, site := range sites {
 			c.inst(1)
